@@ -25,10 +25,6 @@ package ebpf
 //@   modifies nothing
 //@   sets relCacheMAC = relCacheMAC + 1
 
-//@ func (l *Loader) RemoveVLANSubscriber
-//@   trusted writes the vlan_subscriber_pools kernel map only
-//@   modifies nothing
-//@   sets relCacheVLAN = relCacheVLAN + 1
 
 //@ func (l *Loader) RemoveCircuitIDSubscriber
 //@   trusted writes the circuit_id_subscribers kernel map only
@@ -72,8 +68,21 @@ package ebpf
 //@ func (l *Loader) AddSubscriber
 //@   modifies nothing
 
+// vlan_subscriber_pools is looked up by bpf/dhcp_fastpath.c with {s_tag = outer VID, c_tag =
+// inner VID or 0}: the control plane uses the pair it is given, unchanged, as the key (C06).
 //@ func (l *Loader) AddVLANSubscriber
 //@   modifies nothing
+//@   ghost bpfPuts mathint = 0
+//@   ensures old(l.vlanSubscriberPools) != nil ==> key.STag == sTag && key.CTag == cTag && bpfPuts == 1
+
+//@ func (l *Loader) RemoveVLANSubscriber
+//@   modifies nothing
+//@   sets relCacheVLAN = relCacheVLAN + 1
+//@   ghost bpfDeletes mathint = 0
+//@   ensures old(l.vlanSubscriberPools) != nil ==> key.STag == sTag && key.CTag == cTag && bpfDeletes == 1
+
+//@ func (l *Loader) GetVLANSubscriber
+//@   ensures old(l.vlanSubscriberPools) != nil ==> key.STag == sTag && key.CTag == cTag
 
 //@ func (l *Loader) AddCircuitIDMapping
 //@   modifies nothing
